@@ -1,6 +1,6 @@
 (* refresh(): same function, exact bookkeeping *)
 From QV.Model Require Import Base Matrix Arith.
-From QV.Proofs Require Import BaseProofs KeyProofs ArithProofs TempRange InvProofs.
+From QV.Proofs Require Import BaseProofs KeyProofs ArithProofs TempRangeQ InvProofs.
 From Coq Require Import Lia Lqa.
 Open Scope Q_scope.
 
